@@ -73,4 +73,27 @@ CLAIMS["C20"] = {"text": "TLC runs the render machine against a sink failing at 
                         "after every event and the final outcome.",
                  "ref": "DESIGN.md §6 C20"}
 
+CLAIMS["C05"] = {"text": "The scanner is a TLA+ state machine (one token per step) run by TLC over every source of <= 5 (quick) / 6-7 "
+                        "(thorough) symbols of a delimiter-rich alphabet with partition/line invariants in every scanner state; "
+                        "each source is tokenised by parser.Scan and rendered, and TraceC05 demands the laws on the "
+                        "implementation's own tokens for every input and equality with the reference scanner on the well-formed "
+                        "fragment; raw/comment bodies and string values (random bytes, UTF-8, up to 64 KiB) pass-through is "
+                        "validated by TraceRender on seeded programs."}
+CLAIMS["C06"] = {"text": "The block parser is a TLA+ pushdown machine; TLC runs it over every token-class sequence of <= 4 (quick) / "
+                        "5 (thorough) tokens from the 22-class alphabet and checks in every state that its verdict equals an "
+                        "independent recursive-descent recogniser; every prefix is spelled and parsed by ParseTemplate and "
+                        "TraceC06 compares accept/reject and the GetRoot tree (blocks, bodies, clauses, leaf positions) with the "
+                        "machine's tree; plus seeded deep nestings and one-edit neighbours."}
+CLAIMS["C07"] = {"text": "TLC nests one failing construct of each of 13 kinds under every sequence of <= 2/3 wrappers with newlines "
+                        "before/inside, with/without path and three starting lines; for render-time failures the render machine "
+                        "(intended wrap policy) must end in the error state at the statically computed line; every case goes "
+                        "through ParseTemplateLocation/Render and TraceC07 checks SourceError, LineNumber, Path, Cause presence, "
+                        "message content, and no output with the error."}
+CLAIMS["C19"] = {"text": "TLC checks on the reference scanner that spelling a token list with any quadruple of the pool (lengths 1-4, "
+                        "regexp metacharacters, shared characters, each subset of positions empty = default) and scanning it "
+                        "gives the list back (types, inner text, hyphen flags, lines), for every token list of <= 2/3 tokens; "
+                        "each spelled source is tokenised by parser.Scan with those delimiters (TraceC05) and 8 programs "
+                        "(hyphens, raw/comment, default delimiters as text, error lines) are rendered on an engine configured "
+                        "with Engine.Delims and validated against the render reference (TraceRender)."}
+
 NOT_CLAIMED = {}
